@@ -381,11 +381,46 @@ def body_and_closures(crate, path):
 
 # -- C19 -------------------------------------------------------------------
 
-NONDET_TYPES = re.compile(r'(std::collections::hash|hashbrown::|RandomState|HashMap|HashSet|std::time::|std::thread::|rand::|rand_core::|rand_chacha::|getrandom::)')
-NONDET_CALLS = re.compile(r'^(std::env::(var|vars|var_os|vars_os|args|args_os|temp_dir|current_dir)|std::time::|std::thread::|std::process::id|rand|getrandom|std::collections::hash|hashbrown::|itertools::Itertools::(counts|counts_by|into_group_map|into_group_map_by|into_grouping_map|into_grouping_map_by|unique|unique_by|duplicates|duplicates_by|all_unique)|std::hash::random|core::ptr::[a-z_:<>* A-Za-z]*::(addr|expose_provenance|expose_addr)|core::ptr::(eq|addr_eq|fn_addr_eq|hash)$|(alloc::rc::Rc|alloc::sync::Arc)::<[^>]*>::ptr_eq|<\*(const|mut) [A-Za-z_]+ as core::(cmp::(PartialEq|PartialOrd|Ord)|hash::Hash)>::|std::fs::read_dir|std::sys)')
+NONDET_TYPES = re.compile(r'(std::time::|std::thread::|rand::|rand_core::|rand_chacha::|getrandom::)')
+# hash-ordered collections are harmless as long as nothing observes their order (membership tests, lookups,
+# insertions): what makes output depend on the hasher's random state is iterating / draining / printing them
+HASH_ORDER_OPS = re.compile(r'(^(std::collections::hash|hashbrown)::(map::HashMap|set::HashSet)::<[^>]*>::(iter|iter_mut|keys|values|values_mut|into_keys|into_values|drain|retain|extract_if|difference|symmetric_difference|intersection|union)$'
+                            r'|^<&?(mut )?(std::collections::hash|hashbrown)::(map::HashMap|set::HashSet)<.*> as core::iter::traits::collect::IntoIterator>::into_iter$'
+                            r'|^<(std::collections::hash|hashbrown)::(map::HashMap|set::HashSet)<.*> as core::(fmt::Debug|cmp::PartialOrd|hash::Hash)>::'
+                            r'|^<(std::collections::hash|hashbrown)::(map|set)::(Iter|IntoIter|Keys|Values|Drain)<.*> as core::iter::traits::iterator::Iterator>::)')
+NONDET_CALLS = re.compile(r'^(std::env::(var|vars|var_os|vars_os|args|args_os|temp_dir|current_dir)|std::time::|std::thread::|std::process::id|rand|getrandom|std::hash::random|core::ptr::[a-z_:<>* A-Za-z]*::(addr|expose_provenance|expose_addr)|core::ptr::(eq|addr_eq|fn_addr_eq|hash)$|(alloc::rc::Rc|alloc::sync::Arc)::<[^>]*>::ptr_eq|<\*(const|mut) [A-Za-z_]+ as core::(cmp::(PartialEq|PartialOrd|Ord)|hash::Hash)>::|std::fs::read_dir|std::sys)')
 
 
 STATE_TYPES = re.compile(r'(core::cell::|std::cell::|std::sync::|core::sync::atomic|std::sync::atomic|alloc::sync::Arc<(core|std)::(cell|sync)|once_cell::|lazy_static::)')
+
+
+WRITE_ONCE = re.compile(r'^(std::sync::(once_lock::OnceLock|lazy_lock::LazyLock)|core::cell::(once::OnceCell|lazy::LazyCell)|once_cell::(sync|unsync)::(Lazy|OnceCell)|lazy_static::lazy::Lazy)<')
+WRITE_ONCE_INIT = re.compile(r'(OnceLock|OnceCell)::<[^>]*>::(get_or_init|get_or_try_init)|(LazyLock|LazyCell|Lazy)::<[^>]*>::new|(OnceLock|OnceCell)::<[^>]*>::(set|try_insert|get_mut|take)')
+
+
+def write_once_ok(crate):
+    """Write-once containers hold state, but state nobody can make depend on a caller when every place
+    that fills them hands over a closure that captures nothing (or a plain function): a constant table
+    built on first use.  Returns the list of offending sites."""
+    bad = []
+    for b in crate.bodies:
+        defs = None
+        for bb, t in b.calls():
+            p = callee_path(t) or ''
+            m = WRITE_ONCE_INIT.search(p)
+            if not m:
+                continue
+            if re.search(r'::(set|try_insert|get_mut|take)$', p):
+                bad.append((b, t, 'filled with a value computed by the caller'))
+                continue
+            defs = defs or local_defs(b)
+            f = trace_value(b, defs, t['args'][-1])[-1]
+            if f[0] == 'const' and ('fn' in f[1]):
+                continue
+            if f[0] == 'rv' and f[1].get('ak') == 'closure' and not f[1]['fields']:
+                continue
+            bad.append((b, t, 'initialised by a closure that captures values of its caller'))
+    return bad
 
 
 def scan_nondeterminism(ctx, crate, rule='N-DET', props=('C19',)):
@@ -399,6 +434,8 @@ def scan_nondeterminism(ctx, crate, rule='N-DET', props=('C19',)):
         for bb, t in b.calls():
             n_calls += 1
             for p in {callee_path(t), callee_decl_path(t)}:
+                if p and HASH_ORDER_OPS.search(p):
+                    ctx.add(list(props), rule, b.key, 'the order of a hash-ordered collection is observed (`%s`) at %s: it follows the hasher\'s random state, not the request history' % (p.split('::')[-1], fmt_span(t['span'])), key='%s|hash-order|%s' % (b.key, p.split('::')[-1]))
                 if p and NONDET_CALLS.search(p):
                     ctx.add(list(props), rule, b.key, 'call to `%s` at %s: its result is not a function of the request history' % (p, fmt_span(t['span'])), key='%s|call|%s' % (b.key, p))
             for ta in callee_ty_args(t):
@@ -420,14 +457,16 @@ def scan_nondeterminism(ctx, crate, rule='N-DET', props=('C19',)):
                         ctx.add(list(props), rule, b.key, 'raw pointers compared at %s (`%s`): the answer depends on where values happen to live' % (fmt_span(st.get('span')), ty), key='%s|ptrcmp' % b.key)
                         break
         # state that outlives a call: statics holding interior-mutable / synchronised state
-        if (b.d.get('def_kind') or '').startswith('Static') and b.locals and STATE_TYPES.search(b.locals[0]['ty'] or ''):
+        if (b.d.get('def_kind') or '').startswith('Static') and b.locals and STATE_TYPES.search(b.locals[0]['ty'] or '') and not WRITE_ONCE.match(b.locals[0]['ty'] or ''):
             ctx.add(list(props), rule, b.key, 'static of type `%s`: state shared between calls' % b.locals[0]['ty'], key='%s|static-state' % b.key)
+    for wb, wt, why in write_once_ok(crate):
+        ctx.add(list(props), rule, wb.key, 'a write-once cell is %s at %s: what it holds afterwards depends on who called first' % (why, fmt_span(wt['span'])), key='%s|write-once' % wb.key)
     for adt in crate.adts.values():
         for v in adt['variants']:
             for f in v['fields']:
                 if NONDET_TYPES.search(f['ty'] or ''):
                     ctx.add(list(props), rule, adt['path'], 'field `%s: %s`' % (f['name'], f['ty']), key='%s|field|%s' % (adt['path'], f['name']))
-                elif STATE_TYPES.search(f['ty'] or ''):
+                elif STATE_TYPES.search(f['ty'] or '') and not WRITE_ONCE.match(f['ty'] or ''):
                     ctx.add(list(props), rule, adt['path'], 'field `%s: %s` is interior-mutable: a value that looks unchanged to its users can make the next call answer differently' % (f['name'], f['ty']), key='%s|state-field|%s' % (adt['path'], f['name']))
     return n_bodies, n_calls
 
